@@ -205,7 +205,9 @@ def check(case: Dict[str, Any]) -> Dict[str, Any]:
             mixed = any(not q[3] for q in ev['qs'])
             mc_now = any(abs(e[0] - t_rel) <= 0.01 and e[2] in (sim.MDNS4, sim.MDNS6) and len(e[4]) > 3 and e[4][1] & 0x8000
                          for e in R['trace'])
-            if mixed or ev['tc'] or pending_tc.get(src) or mc_now or ev['probe'] or ev['port'] != 5353:
+            # (a packet that itself carries the TC bit is always deferred, and its copy is recognised in the per-source list of
+            # deferred packets: processed once, so not part of the finding)
+            if not ev['tc'] and (mixed or pending_tc.get(src) or mc_now or ev['probe'] or ev['port'] != 5353):
                 f10 += 1
         pending_tc[src] = bool(ev['tc'])
     if f10:
